@@ -8,9 +8,13 @@ ID = 'C14'
 GENS = []
 TARGETS = ['BC.Props.C14']
 PROP_FILES = ['BC/Props/C14.lean']
+# source ties: function bodies regenerated from the Python source by translate/t_funcs.py, proved equal to the model functions
+SRC = {'module': 'BC.Props.C14Src', 'file': 'BC/Props/C14Src.lean',
+       'theorems': ['C14_src_sectional_density', 'C14_src_machC', 'C14_src_bcpoint_mach_of_v', 'C14_src_lin_interp', 'C14_src_interp_loop']}
 THEOREMS = ['C14_interp_correct', 'C14_interp_homogeneous', 'C14_effective_bc', 'C14_sort_sorted', 'C14_order_independent',
             'C14_single_point', 'C14_bcpoint']
 STATEMENTS = {
+    'C14_src_interp_loop': 'SOURCE TIE (all C14_src_*): linear_interpolation (clamps, bracket, loop condition, in-segment test, value, moves), sectional_density, BCPoint._machC and the Mach of a velocity point, executed symbolically from the Python source on every run, are the pieces of linInterp / interpLoop / sectionalDensity / bcMachC / bcPoint; the glue statements of DragModelMultiBC are matched structurally',
     'C14_interp_correct': 'strictly ascending xp: linear_interpolation clamps outside and is the linear interpolant on the bracketing interval',
     'C14_interp_homogeneous': 'interp(yp/c) = interp(yp)/c',
     'C14_effective_bc': 'at every table Mach: CD_std*BC_model/CD_model = interpolated BC of the sorted points; Mach column unchanged',
